@@ -125,14 +125,16 @@ type ex4Server struct {
 }
 
 type ex4State struct {
-	s     *simrt.Sim
-	tape  *simrt.Tape
-	net   *Net
-	raw   bool
-	T     time.Duration
-	tries int
-	stall bool
-	xid   dhcpv4.TransactionID
+	s      *simrt.Sim
+	tape   *simrt.Tape
+	net    *Net
+	raw    bool
+	T      time.Duration
+	tries  int
+	stall  bool
+	xid    dhcpv4.TransactionID
+	forced bool // the harness chooses the transaction id (else: the library's own random one)
+	xnames map[uint32]string
 
 	cconn   *Conn // the client's socket (direct mode) or the link (raw mode)
 	servers []*ex4Server
@@ -183,6 +185,8 @@ func (st *ex4State) start() {
 	st.T = pick(t, ms(50), ms(200))
 	st.tries = 1 + t.Weighted(2, 3, 2)
 	st.xid = xid4(0x77000000 | uint32(t.Choose(4)))
+	st.forced = t.Coin(1, 2)
+	st.xnames = map[uint32]string{}
 	nserv := t.Weighted(1, 4, 3, 2)
 	st.lossNum = swarmRate(t, 5, 25)
 	st.dupNum = swarmRate(t, 5, 25)
@@ -268,7 +272,21 @@ func (st *ex4State) start() {
 }
 
 func (st *ex4State) mods() []dhcpv4.Modifier {
+	if !st.forced {
+		return nil
+	}
 	return []dhcpv4.Modifier{dhcpv4.WithTransactionID(st.xid)}
+}
+
+// xn renders a transaction id by order of first appearance, so that the event
+// log does not depend on the library's random ids.
+func (st *ex4State) xn(x uint32) string {
+	n, ok := st.xnames[x]
+	if !ok {
+		n = fmt.Sprintf("x%d", len(st.xnames))
+		st.xnames[x] = n
+	}
+	return n
 }
 
 func (st *ex4State) op(kind string, fn func(o *ex4Op)) *ex4Op {
@@ -335,7 +353,7 @@ func (st *ex4State) clientTx(b []byte, dest *net.UDPAddr) {
 	s, t := st.s, st.tape
 	tx := &ex4Tx{t: s.Now(), raw: b, dest: dest}
 	tx.p, tx.ok = parseBootp(b)
-	tx.seq = s.Ev("tx", -1, int64(tx.p.typ()), fmt.Sprintf("xid=%08x dest=%v", tx.p.xid, dest), nil)
+	tx.seq = s.Ev("tx", -1, int64(tx.p.typ()), fmt.Sprintf("xid=%s dest=%v", st.xn(tx.p.xid), dest), nil)
 	if st.cur != nil {
 		st.cur.txs = append(st.cur.txs, tx)
 	} else {
@@ -416,7 +434,7 @@ func (st *ex4State) clientRx(b []byte) {
 	}
 	desc := "undecodable"
 	if r.m != nil {
-		desc = fmt.Sprintf("xid=%s type=%s sid=%v yi=%v", r.m.TransactionID, r.m.MessageType(), r.m.ServerIdentifier(), r.m.YourIPAddr)
+		desc = fmt.Sprintf("xid=%s type=%s sid=%v yi=%v", st.xn(binary.BigEndian.Uint32(r.m.TransactionID[:])), r.m.MessageType(), r.m.ServerIdentifier(), r.m.YourIPAddr)
 	}
 	r.seq = s.Ev("rx", -1, int64(len(b)), desc, nil)
 	st.rx = append(st.rx, r)
@@ -427,7 +445,7 @@ func (st *ex4State) clientRx(b []byte) {
 func (st *ex4State) handler(sv *ex4Server) server4.Handler {
 	s, t := st.s, st.tape
 	return func(conn net.PacketConn, peer net.Addr, m *dhcpv4.DHCPv4) {
-		s.Ev("server.rx", sv.id, int64(m.MessageType()), fmt.Sprintf("xid=%s sid=%v", m.TransactionID, m.ServerIdentifier()), nil)
+		s.Ev("server.rx", sv.id, int64(m.MessageType()), fmt.Sprintf("xid=%s sid=%v", st.xn(binary.BigEndian.Uint32(m.TransactionID[:])), m.ServerIdentifier()), nil)
 		var n int
 		switch m.MessageType() {
 		case dhcpv4.MessageTypeDiscover:
@@ -688,8 +706,9 @@ func (st *ex4State) oracle(v *vio) {
 			// hand during the DISCOVER phase and that the first REQUEST names
 			var cands []*dhcpv4.DHCPv4
 			r0 := req[0]
+			opXid := xid4(disc[0].p.xid)
 			for _, r := range st.rx {
-				if (r.doneSeq == 0 || r.doneSeq >= o.invSeq) && r.seq < r0.seq && r.eligible(st.xid) && r.m.MessageType() == dhcpv4.MessageTypeOffer &&
+				if (r.doneSeq == 0 || r.doneSeq >= o.invSeq) && r.seq < r0.seq && r.eligible(opXid) && r.m.MessageType() == dhcpv4.MessageTypeOffer &&
 					r0.ok && len(r0.p.opts[50]) == 4 && r.m.YourIPAddr.Equal(net.IP(r0.p.opts[50])) && bytes.Equal(r.m.Options.Get(dhcpv4.OptionServerIdentifier), r0.p.opts[54]) {
 					cands = append(cands, r.m)
 				}
@@ -733,7 +752,11 @@ func (st *ex4State) checkOffer(v *vio, o *ex4Op, name string, offer *dhcpv4.DHCP
 		v.add("X-offer-nil", "%s: returned (nil, nil)", name)
 		return
 	}
-	if offer.MessageType() != dhcpv4.MessageTypeOffer || offer.OpCode != dhcpv4.OpcodeBootReply || !bytes.Equal(offer.ClientHWAddr, clientHW) || offer.TransactionID != st.xid {
+	want := st.xid
+	if len(disc) > 0 {
+		want = xid4(disc[0].p.xid)
+	}
+	if offer.MessageType() != dhcpv4.MessageTypeOffer || offer.OpCode != dhcpv4.OpcodeBootReply || !bytes.Equal(offer.ClientHWAddr, clientHW) || offer.TransactionID != want {
 		v.add("X-offer-foreign", "%s: returned a %s (op=%v hw=%v xid=%s) as the offer", name, offer.MessageType(), offer.OpCode, offer.ClientHWAddr, offer.TransactionID)
 	}
 	if len(disc) > 0 && st.findSource(offer, o.invSeq, before) == nil {
